@@ -14,7 +14,7 @@ def asyncBrokerFields : List String := ["AfterMessageDeleted", "AfterMessageStor
 def hostSharesQueues : Bool := true
 
 /-- pkg/msghub/hub.go calls AddListener exactly once on every AsyncEventBroker field of Events, each time with the same string literal as name (whatever it is) -/
-def msghubOneListenerName : Bool := false
+def msghubOneListenerName : Bool := true
 
 /-- EventBroker.Emit returns the first non-nil listener result, in slice order, else nil -/
 def syncEmitFirstResult : Bool := true
